@@ -32,4 +32,31 @@ theorem ctor_ok :
 /-- the two module-level locks are two separate `multiprocessing.Lock()` objects -/
 theorem locks_ok : Panoptica.Generated.moduleLocksDistinct = true := by decide
 
+/-! ### which file each operation acts on
+
+`evaluateProg`, `statProg` and `ctorProg` name their files `.out` / `.buf` after the *variable* that is passed; the
+facts below follow the *value* of that variable through the constructor (a symbolic evaluation by the extractor: `P` is
+the path given, `str`/`Path` are the identity, `+ '.tsv'` appends, the buffer is a sibling named after the stem). -/
+
+/-- every operation classified as acting on the output file (the buffer file) is given exactly the path the
+    constructor stores as the output file (the buffer file) — in every branch of the constructor, and in `evaluate`,
+    `_save_one_subject` and `make_statistic`, which only see the stored attributes -/
+theorem out_paths_ok :
+    Panoptica.Generated.pathUses.all (fun u =>
+      match Panoptica.Generated.pathBranches.find? (fun b => b.1 == u.2.2.1) with
+      | some b => if u.1 == "out" then u.2.2.2 == b.2.1 else u.1 == "buf" && u.2.2.2 == b.2.2
+      | none => false) = true := by decide
+
+/-- the stored output file is the given path if it carries an extension and the given path plus `.tsv` otherwise;
+    the buffer file is the sibling `<stem>_panoptica_aggregator_tmp.tsv` of *that* (resolved) path -/
+theorem path_branches_ok :
+    (Panoptica.Generated.pathBranches.map (fun b => (b.2.1, b.2.2))).isPerm
+      [("P", "sibling(P, stem(P)+'_panoptica_aggregator_tmp.tsv')"),
+       ("P+'.tsv'", "sibling(P+'.tsv', stem(P+'.tsv')+'_panoptica_aggregator_tmp.tsv')")] = true := by decide
+
+/-- non-vacuity: the facts cover both files in both branches -/
+theorem path_uses_nonempty :
+    (Panoptica.Generated.pathUses.filter (fun u => u.1 == "out")).length ≥ 8 ∧
+    (Panoptica.Generated.pathUses.filter (fun u => u.1 == "buf")).length ≥ 8 := by decide
+
 end Panoptica.Extracted
